@@ -501,11 +501,33 @@ theorem stepB_cases (bound dh : Bool) (tbl : List MethodRec) (O : Oracles) (c : 
     (out = .ok ∧ (OpOk bound tbl fields op = true → s' = s)) := by
   have attrErr : AllowedErr (.other "AttributeError") :=
     Or.inr (Or.inr (Or.inr (Or.inr (Or.inr rfl))))
-  have idxErr : ∀ cur : PyVal, AllowedErr (match cur with | .dict _ => MErr.keyErr | _ => MErr.indexErr) := by
-    intro cur
-    cases cur <;> first
-      | exact Or.inr (Or.inr (Or.inr (Or.inr (Or.inl rfl))))
-      | exact Or.inr (Or.inr (Or.inr (Or.inl rfl)))
+  have idxErr : ∀ (cur k : PyVal), AllowedErr (lookupErr cur k) := by
+    have kE : AllowedErr MErr.keyErr := Or.inr (Or.inr (Or.inr (Or.inr (Or.inl rfl))))
+    have iE : AllowedErr MErr.indexErr := Or.inr (Or.inr (Or.inr (Or.inl rfl)))
+    have tE : AllowedErr MErr.typeErr := Or.inl rfl
+    have one : ∀ (cur k : PyVal), AllowedErr (lookupErr1 cur k) := by
+      intro cur k
+      unfold lookupErr1
+      split
+      · exact kE
+      · split
+        · exact iE
+        · exact tE
+    have path : ∀ (ks : List PyVal) (cur : PyVal), AllowedErr (lookupErrPath cur ks) := by
+      intro ks
+      induction ks with
+      | nil => intro cur; exact iE
+      | cons k ks ih =>
+        intro cur
+        simp only [lookupErrPath]
+        split
+        · exact ih _
+        · exact one cur k
+    intro cur k
+    unfold lookupErr
+    split
+    · exact path _ _
+    · exact one cur k
   cases op with
   | setattr f v =>
     have : stepB bound dh tbl O c fields s (.setattr f v) = setattrStep O c fields s f v := by
@@ -545,7 +567,7 @@ theorem stepB_cases (bound dh : Bool) (tbl : List MethodRec) (O : Oracles) (c : 
               rcases nestedBound_facts O c fields s s' f k kind r m cur elem out hr h with h1 | ⟨new, h2⟩
               · exact Or.inl h1
               · exact Or.inr (Or.inl ⟨f, new, h2⟩)
-        · cases h; exact Or.inl ⟨_, rfl, rfl, idxErr _⟩
+        · cases h; exact Or.inl ⟨_, rfl, rfl, idxErr _ _⟩
       · cases h; exact Or.inl ⟨_, rfl, rfl, attrErr⟩
     | false =>
       have : stepB false dh tbl O c fields s (.callNested f k m) = step tbl O c fields s (.callNested f k m) := rfl
@@ -565,7 +587,7 @@ theorem stepB_cases (bound dh : Bool) (tbl : List MethodRec) (O : Oracles) (c : 
               · exact Or.inl h1
               · refine Or.inr (Or.inr (Or.inr ⟨h1, fun hok => h2 ?_⟩))
                 simpa [OpOk, TopOp, nestedRow, hfd, hed, hkind, hfind] using hok
-        · cases h; exact Or.inl ⟨_, rfl, rfl, idxErr _⟩
+        · cases h; exact Or.inl ⟨_, rfl, rfl, idxErr _ _⟩
       · cases h; exact Or.inl ⟨_, rfl, rfl, attrErr⟩
 
 /-- **failure-atomic, every operation**: a failed operation — nested calls included, under either
@@ -810,6 +832,41 @@ theorem runB_hook_partial (bound dh : Bool) (tbl : List MethodRec) (O : Oracles)
     exact runB_hook_partial bound dh tbl O c fields htbl rest _ hops.2
       (stepB_hook bound dh tbl O c fields s _ op _ htbl hops.1.1 hops.1.2 hs rfl)
 
+/-! ### the repaired tree (fix window 1: cbf3b48 nested wrappers re-assign their parent, 613f11f
+    `__delitem__` runs the hook).  A `fixed` entry suppresses nothing: should a later change undo a
+    repair, the probes flip, these obligations break and the oracle reports the failing history. -/
+
+theorem fixed_nested_bound_today : Generated.nestedBound = true := by decide
+
+theorem fixed_delitem_hook_today : Generated.delitemHook = true := by decide
+
+/-- for the current tree the statement holds at FULL strength: every finite history of operations —
+    nested calls at any depth included, no exclusion — keeps a well-formed instance well-formed -/
+theorem fixed_full_statement_current :
+    FullStatement Generated.nestedBound Generated.delitemHook Generated.wrappers := by
+  rw [fixed_nested_bound_today]
+  exact full_statement_bound _ _ tables_ok
+
+/-- … and the class's hook keeps accepting the instance over every history of assignments to
+    declared fields, deletions and (nested) wrapper mutators -/
+theorem fixed_hook_invariant_current (O : Oracles) (c : ClassOpts) (fields : List (String × FieldDecl))
+    (ops : List Op) (s : Attrs)
+    (hops : ops.all (fun op => match op with | .setattr f _ => (lookup f fields).isSome | _ => true) = true)
+    (hs : O.hookOk s = true) :
+    O.hookOk (runB Generated.nestedBound Generated.delitemHook Generated.wrappers O c fields s ops).1 = true := by
+  refine runB_hook_partial _ _ Generated.wrappers O c fields tables_ok ops s ?_ hs
+  rw [List.all_eq_true] at hops ⊢
+  intro op hop
+  have h1 := hops op hop
+  have hb : OpOk Generated.nestedBound Generated.wrappers fields op = true := by
+    simp [OpOk, fixed_nested_bound_today]
+  rw [hb, Bool.and_true]
+  cases op with
+  | setattr f v => simpa [HookOp] using h1
+  | delitem f => simp [HookOp, fixed_delitem_hook_today]
+  | call f m => rfl
+  | callNested f k m => rfl
+
 /-! ### kept wrapper references (stale wrappers) -/
 
 /-- **refinement**: a mutator called on a kept reference behaves exactly like a validated assignment
@@ -1050,6 +1107,25 @@ theorem nested_bound_example :
     ∧ (match (stepB false false Generated.wrappers exO exCN exFieldsN exStartN
         (.callNested "n" (.int 0) (.insert 0 (.int 7)))) with
         | (("n", .list [.list [.int 1]]) :: _, .ok) => true | _ => false) = true := by
+  decide
+
+/-- nesting depth 2 (`x.d[0][0].append(v)`, the path is the key `.list [0, 0]`): scratch-bound today —
+    in place and unvalidated for `append`, silently lost for `insert`; validated once bound -/
+def exFieldsD : List (String × FieldDecl) :=
+  [("d", .seqOf .list (.seqOf .list (.seqOf .list (.integer {}) {}) {}) {})]
+def exStartD : Attrs := [("d", .list [.list [.list [.int 1]]])]
+
+theorem nested_depth2_example :
+    (match (stepB false false Generated.wrappers exO exCN exFieldsD exStartD
+        (.callNested "d" (.list [.int 0, .int 0]) (.insert 0 (.int 7)))) with
+      | ([("d", .list [.list [.list [.int 1]]])], .ok) => true | _ => false) = true
+    ∧ (match (stepB true false Generated.wrappers exO exCN exFieldsD exStartD
+        (.callNested "d" (.list [.int 0, .int 0]) (.insert 0 (.int 7)))) with
+      | ([("d", .list [.list [.list [.int 7, .int 1]]])], .ok) => true | _ => false) = true
+    ∧ (stepB true false Generated.wrappers exO exCN exFieldsD exStartD
+        (.callNested "d" (.list [.int 0, .int 0]) (.append (.str "bad")))).2 = .err .typeErr
+    ∧ (stepB false false Generated.wrappers exO exCN exFieldsD exStartD
+        (.callNested "d" (.list [.int 0, .int 3]) (.append (.int 1)))).2 = .err .indexErr := by
   decide
 
 /-- a kept reference that went stale: `w = x.a; x.a = [0, 0, 0]; w.append(3)` assigns the
